@@ -226,3 +226,5 @@ def run(check):
     from ..rules_embed import rule_accumulator_by_position
     check.run_rule('C15.R10', lambda c: rule_accumulator_by_position(c, 'C15.R10'))
     check.run_rule('C15.R9', lambda c: rule_source_helpers(c, {'depths': 'C15.R9', 'arith': None, 'dedup': None, 'complete': None}))
+    from ..rules_escape import rule_validation_converted
+    check.run_rule('C15.R13', lambda c: rule_validation_converted(c, 'C15.R13'))
